@@ -23,7 +23,7 @@ EXPLANATION = (
     "callback receives the iterator's own key (+ record bytes), `_no_more_records = true` followed by a callback on every normal exit; "
     "R18.3 every send(generate_sequence_reset(N,true), destroy, custom) in retrans_callback/handle_resend_request has an explicit "
     "custom sequence number derived from the context (_begin/_last/BeginSeqNo), never from _next_send_seq, and the later store to "
-    "_next_send_seq is the announced N; R18.4 reject decision table over (begin>end, end≠0, begin=0). R18.5 at the end of the records retrans_callback sends the closing gap fill and returns the session to continuous on every path. NOT decided: concrete stores.")
+    "_next_send_seq is the announced N; R18.4 reject decision table over (begin>end, end≠0, begin=0). R18.6 both persisters seed the RetransmissionContext with session.get_next_send_seq(); R18.5 at the end of the records retrans_callback sends the closing gap fill and returns the session to continuous on every path. NOT decided: concrete stores.")
 
 S = 'FIX8::Session::'
 SEND_SEQ = S + '_next_send_seq'
@@ -174,6 +174,29 @@ def range_get_rules(ctx, prog, rid):
         ctx.check(okf and len(rets) >= 2, rid, cls + '::find_nearest_highest_seqnum#found-only', fh.loc,
                   'a non-zero result is always the key of an entry that find() located (so the later find() cannot miss)')
 
+
+
+def retrans_seed_rule(ctx, prog, RID):
+    """both range-get implementations build the RetransmissionContext with the session's CURRENT next send number: retrans_callback assigns
+    _next_send_seq from it at the end of the replay (sibling agreement over the persisters)"""
+    n = 0
+    for f in prog.all_functions():
+        if not f.qp.endswith('Persister::get') or len(f.param_ids) < 4:
+            continue
+        cons = [c for c in f.all_nodes() if c.k in ('CXXConstructExpr', 'CXXTemporaryObjectExpr') and 'RetransmissionContext' in (c.tstr or '') and len(c.args) >= 3]
+        if not cons:
+            continue
+        ctx.saw(f)
+        for c in cons:
+            n += 1
+            a3 = c.args[2].strip(casts=True)
+            ok = a3.is_call and a3.callee_qp == 'FIX8::Session::get_next_send_seq' and a3.obj is not None and q.refers_to_decl(a3.obj, f.param_ids[2])
+            ctx.check(ok, RID, f.qp + '#retransmission-context.seed', c.loc,
+                      'the retransmission context is seeded with session.get_next_send_seq()',
+                      'the retransmission context is seeded with `%s` instead of the session\'s next send number: retrans_callback stores it into _next_send_seq when the '
+                      'replay ends, so after admin messages (never persisted) or a partial range the counter is rewound and the next new message reuses a sequence number'
+                      % c.args[2].text())
+    ctx.need(n >= 2, 'fewer than 2 RetransmissionContext constructions found in the persisters (%d)' % n)
 
 
 def run(ctx):
@@ -330,6 +353,7 @@ def run(ctx):
     p2 = q.escape_path(rcfg, start, closing)
     ctx.check(bool(closing) and p2 is None, 'R18.5', S + 'retrans_callback#end.closing-gapfill', nm[0][1].loc,
               'end of records: a closing SequenceReset-GapFill is sent on every path', None, rcfg.describe_path(p2) if p2 else None)
+    retrans_seed_rule(ctx, prog, 'R18.6')
     ctx.floor('R18.5', 2)
     ctx.floor('R18.1', 5)
     ctx.floor('R18.2', 20)
